@@ -835,4 +835,112 @@ theorem sliceToUnsigned_value (w : Nat) (a : Bytes) (ha : isMinimalTC a = true) 
           have hin : inRange false w (tcValue (x :: rest)) = true := by
             rw [inRange_unsigned_iff, hv]; omega
           rw [if_pos hin, beValue_append, beValue_replicate_zero, hv]; simp
+
+theorem sliceToSigned_decodeInt (w : Nat) (hw : 1 ≤ w) (a : Bytes) (ha : isMinimalTC a = true) :
+    sliceToSigned w a = .ok (decodeInt true w a) := by
+  rw [sliceToSigned_value w hw a ha]; simp only [decodeInt, ha, Bool.true_and]
+
+theorem sliceToUnsigned_decodeInt (w : Nat) (a : Bytes) (ha : isMinimalTC a = true) :
+    sliceToUnsigned w a = .ok ((decodeInt false w a).map Int.toNat) := by
+  rw [sliceToUnsigned_value w a ha]; simp only [decodeInt, ha, Bool.true_and]
+  split <;> rfl
+
+/-! ### the bounds in powers of two, as in the property text -/
+
+/-- any `n`-octet form (`n ≥ 1`) lies in `[-2^(8n-1), 2^(8n-1))` -/
+theorem tcValue_range (s : Bytes) (h : s ≠ []) :
+    -(2 : Int) ^ (8 * s.length - 1) ≤ tcValue s ∧ tcValue s < (2 : Int) ^ (8 * s.length - 1) := by
+  match s, h with
+  | b :: t, _ =>
+    rw [int_two_pow, two_pow_sub1 _ (by simp), List.length_cons, Nat.add_sub_cancel]
+    by_cases hb : 128 ≤ b.toNat
+    · have := tcValue_bounds_of_ge b t hb; omega
+    · have := tcValue_bounds_of_lt b t (by omega); omega
+
+/-- a minimal form of `n ≥ 2` octets has magnitude beyond what `n - 1` octets can hold:
+    `v ≥ 2^(8n-9)` if non-negative, `v < -2^(8n-9)` if negative -/
+theorem minimal_magnitude (s : Bytes) (hm : isMinimalTC s = true) (h2 : 2 ≤ s.length) :
+    (0 ≤ tcValue s → (2 : Int) ^ (8 * s.length - 9) ≤ tcValue s) ∧
+    (tcValue s < 0 → tcValue s < -(2 : Int) ^ (8 * s.length - 9)) := by
+  match s, hm, h2 with
+  | [x], _, h2 => simp at h2
+  | a :: b :: t, hm, _ =>
+    have e : 8 * (a :: b :: t).length - 9 = 8 * (t.length + 1) - 1 := by simp; omega
+    rw [int_two_pow, e, two_pow_sub1 _ (by omega), Nat.add_sub_cancel]
+    have hs := tcValue_neg_iff a (b :: t)
+    constructor
+    · intro h; exact minimal_lower_of_lt a b t hm (by omega)
+    · intro h; exact minimal_upper_of_ge a b t hm (by omega)
+
+/-- for minimal forms of the same sign, longer means larger magnitude -/
+theorem longer_larger_magnitude (a b : Bytes) (ha : a ≠ []) (hb : isMinimalTC b = true)
+    (hl : a.length < b.length) :
+    (0 ≤ tcValue a → 0 ≤ tcValue b → tcValue a < tcValue b) ∧
+    (tcValue a < 0 → tcValue b < 0 → tcValue b < tcValue a) := by
+  match a, ha, b, hb, hl with
+  | x :: s, _, y :: t, hb, hl =>
+    have h1 := tcValue_neg_iff x s
+    have h2 := tcValue_neg_iff y t
+    constructor
+    · intro p q; exact longer_larger_of_lt x s y t hb hl (by omega) (by omega)
+    · intro p q; exact longer_smaller_of_ge x s y t hb hl (by omega) (by omega)
+  | _ :: _, _, [], hb, _ => exact absurd rfl (minimal_ne_nil _ hb)
+
+/-! ### non-vacuity and the need for the hypotheses -/
+
+example : isMinimalTC [0x00, 0x80] = true ∧ isMinimalTC [0x7F] = true ∧
+    isMinimalTC [0xFF, 0x7F] = true ∧ isMinimalTC [0x80] = true := by decide
+example : tcValue [0x00, 0x80] = 128 ∧ tcValue [0x7F] = 127 ∧ tcValue [0xFF, 0x7F] = -129 ∧
+    tcValue [0x80] = -128 := by decide
+/-- 00 80 = 128 > 7F = 127 although 00 < 7F octet-wise -/
+example : BigInt.cmp [0x00, 0x80] [0x7F] = .ok .gt := rfl
+/-- FF 7F = -129 < 80 = -128 -/
+example : BigInt.cmp [0xFF, 0x7F] [0x80] = .ok .lt := rfl
+example : BigInt.cmp [0x80] [0x7F] = .ok .lt := rfl
+example : BigInt.cmp [0x01, 0x00] [0x00, 0xFF] = .ok .gt := rfl
+/-- the general theorem applied to the first example -/
+example : BigInt.cmp [0x00, 0x80] [0x7F] = .ok (compare (128 : Int) 127) :=
+  cmp_eq_value [0x00, 0x80] [0x7F] rfl rfl
+/-- without minimality the order is wrong (00 00 = 0 is not above 01 = 1): the hypothesis is needed;
+    decoding (`integerFromPrimitive_spec`) never produces such a value -/
+example : BigInt.cmp [0x00, 0x00] [0x01] = .ok .gt := rfl
+example : tcValue [0x00, 0x00] < tcValue [0x01] := by decide
+example : BigInt.isPositive [0x00, 0x00] = .ok true := rfl
+example : BigInt.eq [0x00, 0x00] [0x00] = false ∧ tcValue [0x00, 0x00] = tcValue [0x00] := by decide
+/-- on the empty list (never a decoded value: `isMinimalTC [] = false`) the Rust code indexes out
+    of bounds -/
+example : isMinimalTC [] = false := rfl
+example : BigInt.isPositive [] = .error (.panic "index 0") := rfl
+example : BigInt.isNegative [] = .error (.panic "index 0") := rfl
+example : BigInt.cmp [] [0x01] = .error (.panic "index 0") := rfl
+example : sliceToSigned 1 [] = .error (.panic "slice_to_builtin: index 0 of empty slice") := rfl
+example : sliceToUnsigned 1 [] = .error (.panic "slice_to_builtin: index 0 of empty slice") := rfl
+example : BigInt.isZero [0x00] = true ∧ BigInt.isZero [0x00, 0x80] = false := by decide
+example : BigInt.isPositive [0x00, 0x80] = .ok true := rfl
+example : BigInt.isPositive [0x00] = .ok false := rfl
+example : BigInt.isNegative [0xFF, 0x7F] = .ok true := rfl
+example : unsignedFromBytes [0, 0, 0x80] = .ok (some [0x00, 0x80]) := rfl
+example : unsignedFromBytes [0x80] = .ok (some [0x00, 0x80]) := rfl
+example : unsignedFromBytes [0, 0, 0] = .ok (some [0x00]) := rfl
+example : unsignedFromBytes [0, 0x7F] = .ok (some [0x7F]) := rfl
+example : sliceToSigned 1 [0x80] = .ok (some (-128)) := rfl
+example : sliceToSigned 1 [0x00, 0x80] = .ok none := rfl
+example : sliceToSigned 2 [0x00, 0x80] = .ok (some 128) := by
+  rw [sliceToSigned_value 2 (by decide) _ rfl]; exact congrArg _ (by decide)
+example : sliceToSigned 2 [0xFF, 0x7F] = .ok (some (-129)) := by
+  rw [sliceToSigned_value 2 (by decide) _ rfl]; exact congrArg _ (by decide)
+example : sliceToUnsigned 1 [0x00, 0x80] = .ok (some 128) := rfl
+example : sliceToUnsigned 1 [0x01, 0x00] = .ok none := rfl
+example : sliceToUnsigned 1 [0x80] = .ok none := rfl
+/-- the `w ≥ 1` hypothesis of `sliceToSigned_value` is needed only because `inRange true 0` is the
+    degenerate range `[-1, 1)` -/
+example : sliceToSigned 0 [0x00] = .ok none := rfl
+example : inRange true 0 (tcValue [0x00]) = true := by decide
+example : runG0 integerFromPrimitive (St ([0x00, 0x80] ++ [0x05]) (some 2)) =
+    .ok ([0x00, 0x80], St [0x05] (some 0)) := integerFromPrimitive_spec [0x00, 0x80] [0x05]
+example : runG0 integerFromPrimitive (St ([0x00, 0x7F] ++ [0x05]) (some 2)) = .error .content :=
+  integerFromPrimitive_spec [0x00, 0x7F] [0x05]
+example : runG0 unsignedFromPrimitive (St ([0x80] ++ []) (some 1)) = .error .content :=
+  unsignedFromPrimitive_spec [0x80] []
+
 end Bcder.Props.C15
